@@ -186,7 +186,7 @@ theorem pauseSatisfied_congr (ro ro' : Rollout) (s s' : Sub) (h1 : ro'.steps = r
 /-- **C02.i (whole reconcile)** — for every world: a reconcile turns `StepPaused` into `StepReady` (same step, plan not
     edited) only when the step's pause is satisfied: the literal `100%` on the last step of a canary plan, or a pause
     duration that has elapsed.  Approval by the user is a write of `StepReady` by the user, not a reconcile. -/
-theorem ready_needs_pause (w : World) (r : StepResult) (h : reconcile w = .val r) : readyNeedsPause w r = true := by
+theorem ready_needs_pause_core (w : World) (r : StepResult) (h : reconcileCore w = .val r) : readyNeedsPause w r = true := by
   unfold readyNeedsPause
   cases hos : w.ro.sub with
   | none => rfl
@@ -205,16 +205,16 @@ theorem ready_needs_pause (w : World) (r : StepResult) (h : reconcile w = .val r
     have hstne : s'.state ≠ os.state := by rw [hfrom, hto]; simp
     cases hw : w.wl with
     | none =>
-      rcases reconcile_nowl w r hph hndel hw h with h1 | h1
+      rcases reconcile_nowl_core w r hph hndel hw h with h1 | h1
       · rw [hs'] at h1; cases h1
       · rw [hs', hos] at h1; cases h1; exact absurd rfl hstne
     | some wl =>
       cases hcons : wl.consistent with
       | false =>
-        have := reconcile_inconsistent w wl r hndel hw hcons h
+        have := reconcile_inconsistent_core w wl r hndel hw hcons h
         rw [hs', hos] at this; cases this; exact absurd rfl hstne
       | true =>
-        obtain ⟨ns, s, hsame, hs, hcore, hreason, hrec⟩ := reconcile_inRolling w wl os hph hr hw hcons hos
+        obtain ⟨ns, s, hsame, hs, hcore, hreason, hrec⟩ := reconcile_inRolling_core w wl os hph hr hw hcons hos
         simp only [subCore, Prod.mk.injEq] at hcore
         obtain ⟨c1, _, c3, c4, _, _, _⟩ := hcore
         rw [hrec] at h
@@ -245,5 +245,16 @@ example : pauseSatisfied { (default : Rollout) with style := .canary, steps := [
     { (default : Sub) with curIdx := 1, state := .paused } = true := by decide
 example : pauseSatisfied { (default : Rollout) with style := .canary, steps := [⟨.int 100, none, .manual⟩] }
     { (default : Sub) with curIdx := 1, state := .paused } = false := by decide
+
+/-! ### the whole reconcile (body + cursor reset, see `RV.Props.Reconcile`, section Transfer) -/
+
+theorem readyNeedsPause_reset (w : World) (r : StepResult) : readyNeedsPause w (resetOnExit w r) = readyNeedsPause w r := by
+  unfold readyNeedsPause; reset_frame
+  cases w.ro.sub <;> cases r.w.ro.sub <;> rfl
+
+/-- **C02.i (whole reconcile)** — for every world: a reconcile turns `StepPaused` into `StepReady` (same step, plan not
+    edited) only when the step's pause is satisfied (see `ready_needs_pause_core`). -/
+theorem ready_needs_pause (w : World) (r : StepResult) (h : reconcile w = .val r) : readyNeedsPause w r = true :=
+  transfer readyNeedsPause readyNeedsPause_reset ready_needs_pause_core w r h
 
 end RV.Props.Pause
